@@ -150,6 +150,120 @@ impl FileReadWriteVolatile for LimSrc {
     }
 }
 
+// ---- async variants (feature async-io): executor, async sources/sinks, pwrite interposition ----------------
+#[cfg(feature = "async-io")]
+mod aio {
+    use super::{ferr, File};
+    use async_trait::async_trait;
+    use fuse_backend_rs::async_file::{preadv, pwritev};
+    use fuse_backend_rs::file_buf::FileVolatileBuf;
+    use fuse_backend_rs::file_traits::AsyncFileReadWriteVolatile;
+    use std::cell::RefCell;
+    use std::io;
+    use std::os::unix::io::AsRawFd;
+    use std::sync::atomic::{AtomicI32, Ordering};
+
+    // FuseDevWriter's async unbuffered path uses pwrite(fd, data, 0), which a socket refuses: the definitions
+    // in the executable take precedence over libc's and forward to write(2) on the harness socket only.
+    pub static HARNESS_FD: AtomicI32 = AtomicI32::new(-1);
+    #[no_mangle]
+    pub unsafe extern "C" fn pwrite(fd: libc::c_int, buf: *const libc::c_void, count: libc::size_t, offset: libc::off_t) -> libc::ssize_t {
+        if fd >= 0 && fd == HARNESS_FD.load(Ordering::SeqCst) {
+            return libc::syscall(libc::SYS_write, fd, buf, count) as libc::ssize_t;
+        }
+        libc::syscall(libc::SYS_pwrite64, fd, buf, count, offset) as libc::ssize_t
+    }
+    #[no_mangle]
+    pub unsafe extern "C" fn pwrite64(fd: libc::c_int, buf: *const libc::c_void, count: libc::size_t, offset: libc::off64_t) -> libc::ssize_t {
+        pwrite(fd, buf, count, offset as libc::off_t)
+    }
+
+    // the sources/sinks below are always ready
+    pub fn block_on<F: std::future::Future>(f: F) -> F::Output {
+        use std::task::{Context as TCx, Poll, RawWaker, RawWakerVTable, Waker};
+        fn noop(_: *const ()) {}
+        fn clone(_: *const ()) -> RawWaker {
+            RawWaker::new(std::ptr::null(), &VT)
+        }
+        static VT: RawWakerVTable = RawWakerVTable::new(clone, noop, noop, noop);
+        let waker = unsafe { Waker::from_raw(RawWaker::new(std::ptr::null(), &VT)) };
+        let mut cx = TCx::from_waker(&waker);
+        let mut f = Box::pin(f);
+        let mut spins = 0u32;
+        loop {
+            match f.as_mut().poll(&mut cx) {
+                Poll::Ready(v) => return v,
+                Poll::Pending => {
+                    spins += 1;
+                    if spins > 1000 {
+                        panic!("future never became ready");
+                    }
+                }
+            }
+        }
+    }
+
+    /// An asynchronous file: a real fd (through the crate's own preadv/pwritev helpers over FileVolatileBuf),
+    /// or memory with a byte limit per call, or one that fails.
+    pub struct AFile {
+        pub file: Option<File>,
+        pub data: Vec<u8>,          // memory source content
+        pub lim: usize,             // memory sink/source: at most this many bytes per call
+        pub fail: bool,
+        pub got: RefCell<Vec<u8>>,  // memory sink: what it received
+    }
+    #[async_trait(?Send)]
+    impl AsyncFileReadWriteVolatile for AFile {
+        async fn async_read_at_volatile(&self, buf: FileVolatileBuf, offset: u64) -> (io::Result<usize>, FileVolatileBuf) {
+            let (r, b) = self.async_read_vectored_at_volatile(vec![buf], offset).await;
+            (r, b[0])
+        }
+        async fn async_read_vectored_at_volatile(&self, mut bufs: Vec<FileVolatileBuf>, offset: u64) -> (io::Result<usize>, Vec<FileVolatileBuf>) {
+            if self.fail {
+                return (Err(ferr()), bufs);
+            }
+            if let Some(f) = &self.file {
+                let r = preadv(f.as_raw_fd(), &mut bufs, offset);
+                return (r, bufs);
+            }
+            let mut pos = std::cmp::min(offset as usize, self.data.len());
+            let mut n = 0;
+            for b in bufs.iter_mut() {
+                let mut dst = b.io_slice_mut();
+                let take = std::cmp::min(std::cmp::min(self.data.len() - pos, dst.len()), self.lim - n);
+                dst[..take].copy_from_slice(&self.data[pos..pos + take]);
+                pos += take;
+                n += take;
+            }
+            (Ok(n), bufs)
+        }
+        async fn async_write_at_volatile(&self, buf: FileVolatileBuf, offset: u64) -> (io::Result<usize>, FileVolatileBuf) {
+            let (r, b) = self.async_write_vectored_at_volatile(vec![buf], offset).await;
+            (r, b[0])
+        }
+        async fn async_write_vectored_at_volatile(&self, bufs: Vec<FileVolatileBuf>, offset: u64) -> (io::Result<usize>, Vec<FileVolatileBuf>) {
+            if self.fail {
+                return (Err(ferr()), bufs);
+            }
+            if let Some(f) = &self.file {
+                let r = pwritev(f.as_raw_fd(), &bufs, offset);
+                return (r, bufs);
+            }
+            let mut n = 0;
+            for b in bufs.iter() {
+                let src = b.io_slice();
+                let take = std::cmp::min(src.len(), self.lim - n);
+                self.got.borrow_mut().extend_from_slice(&src[..take]);
+                n += take;
+            }
+            (Ok(n), bufs)
+        }
+    }
+    pub fn afile(file: Option<File>, data: Vec<u8>, lim: usize, fail: bool) -> AFile {
+        AFile { file, data, lim, fail, got: RefCell::new(vec![]) }
+    }
+}
+
 fn io_err(e: &io::Error) -> String {
     let msg = format!("{}", e);
     if msg.contains("data out of range") {
@@ -296,6 +410,36 @@ fn reader_op<S: BitmapSlice>(rs: &mut Vec<Reader<'_, S>>, f: &[&str]) -> Obs {
                 }
             }
         }
+        #[cfg(feature = "async-io")]
+        "T" => {
+            // async_read_to_at: kinds f (real fd at offset 3, crate's pwritev helper), l (at most lim bytes), e (fails)
+            let count = num(f[2]) as usize;
+            let lim = num(f[4]) as usize;
+            match f[3] {
+                "f" => {
+                    let mut file = memfd(&[0x5a, 0x5a, 0x5a]);
+                    let af = aio::afile(Some(file.try_clone().unwrap()), vec![], 0, false);
+                    match aio::block_on(rs[i].async_read_to_at(&af, count, 3)) {
+                        Ok(n) => {
+                            let all = file_content(&mut file, 0);
+                            if all.len() < 3 || all[..3] != [0x5a, 0x5a, 0x5a] {
+                                er("file-prefix-clobbered")
+                            } else {
+                                ok(n, &all[3..])
+                            }
+                        }
+                        Err(e) => er(&io_err(&e)),
+                    }
+                }
+                _ => {
+                    let af = aio::afile(None, vec![], lim, f[3] == "e");
+                    match aio::block_on(rs[i].async_read_to_at(&af, count, 0)) {
+                        Ok(n) => ok(n, &af.got.borrow()),
+                        Err(e) => er(&io_err(&e)),
+                    }
+                }
+            }
+        }
         "s" => match rs[i].split_at(num(f[2]) as usize) {
             Ok(r) => {
                 a2 = r.available_bytes();
@@ -379,7 +523,7 @@ fn virtio_case(line: &str) -> String {
         for op in kv(line, "ops").split(';').filter(|s| !s.is_empty()) {
             let f: Vec<&str> = op.split(',').collect();
             let o = match f[0] {
-                "r" | "x" | "o" | "t" | "s" | "X" => reader_op(&mut rs, &f),
+                "r" | "x" | "o" | "t" | "s" | "X" | "T" => reader_op(&mut rs, &f),
                 _ if num(f[1]) as usize >= ws.len() => Obs { res: er("noindex"), a: 0, c: 0, a2: 0, c2: 0, pk: vec![] },
                 _ => {
                     let i = num(f[1]) as usize;
@@ -427,6 +571,40 @@ fn virtio_case(line: &str) -> String {
                             };
                             match r {
                                 Ok(()) => ok(0, &[]),
+                                Err(e) => er(&io_err(&e)),
+                            }
+                        }
+                        #[cfg(feature = "async-io")]
+                        "a" | "b" | "d" | "e" | "g" | "h" => {
+                            let ds = split_datas(f.get(2).copied().unwrap_or(""));
+                            let emp: Vec<u8> = vec![];
+                            let g = |k: usize| ds.get(k).unwrap_or(&emp);
+                            let r: io::Result<usize> = match f[0] {
+                                "a" => aio::block_on(ws[i].async_write(g(0))),
+                                "b" => aio::block_on(ws[i].async_write2(g(0), g(1))),
+                                "d" => aio::block_on(ws[i].async_write3(g(0), g(1), g(2))),
+                                "e" => aio::block_on(ws[i].async_write_all(g(0))).map(|_| g(0).len()),
+                                "h" => aio::block_on(ws[i].async_commit(None)),
+                                _ => {
+                                    let count = num(f[2]) as usize;
+                                    let data = unhex(f.get(4).copied().unwrap_or(""));
+                                    let af = match f[3] {
+                                        "f" => {
+                                            let mut c = vec![0xa5u8, 0xa5];
+                                            c.extend_from_slice(&data);
+                                            aio::afile(Some(memfd(&c)), vec![], 0, false)
+                                        }
+                                        k => {
+                                            let mut c = vec![0xa5u8, 0xa5];
+                                            c.extend_from_slice(&data);
+                                            aio::afile(None, c, usize::MAX, k == "e")
+                                        }
+                                    };
+                                    aio::block_on(ws[i].async_write_from_at(&af, count, 2))
+                                }
+                            };
+                            match r {
+                                Ok(n) => ok(n, &[]),
                                 Err(e) => er(&io_err(&e)),
                             }
                         }
@@ -664,6 +842,8 @@ fn fusedev_case(line: &str) -> String {
     let alen = arena.len();
     let mut sv = [0i32; 2];
     assert_eq!(unsafe { libc::socketpair(libc::AF_UNIX, libc::SOCK_SEQPACKET, 0, sv.as_mut_ptr()) }, 0);
+    #[cfg(feature = "async-io")]
+    aio::HARNESS_FD.store(sv[0], Ordering::SeqCst);
     let mut out: Vec<String> = Vec::new();
     {
         let buf: &mut [u8] = unsafe { std::slice::from_raw_parts_mut(aptr.add(MARGIN), cap) };
@@ -680,7 +860,7 @@ fn fusedev_case(line: &str) -> String {
             for op in kv(line, "ops").split(';').filter(|s| !s.is_empty()) {
                 let f: Vec<&str> = op.split(',').collect();
                 let i = num(f[1]) as usize;
-                if i >= ws.len() || (f[0] == "c" && f[2].parse::<i64>().unwrap() >= ws.len() as i64) {
+                if i >= ws.len() || ((f[0] == "c" || f[0] == "h") && f[2].parse::<i64>().unwrap() >= ws.len() as i64) {
                     out.push(obs_json(&Obs { res: er("noindex"), a: 0, c: 0, a2: 0, c2: 0, pk: vec![] }));
                     continue;
                 }
@@ -717,6 +897,47 @@ fn fusedev_case(line: &str) -> String {
                                 "b" => w.write_from(&mut wronly_file(), count),
                                 "l" | "e" => w.write_from(&mut LimSrc { data, pos: 0, fail: f[3] == "e" }, count),
                                 k => panic!("src kind {}", k),
+                            };
+                            match r {
+                                Ok(n) => ok(n, &[]),
+                                Err(e) => er(&io_err(&e)),
+                            }
+                        }
+                        #[cfg(feature = "async-io")]
+                        "a" | "b" | "d" | "e" | "g" => {
+                            let ds = split_datas(f.get(2).copied().unwrap_or(""));
+                            let emp: Vec<u8> = vec![];
+                            let g = |k: usize| ds.get(k).unwrap_or(&emp);
+                            let r: io::Result<usize> = match f[0] {
+                                "a" => aio::block_on(ws[i].async_write(g(0))),
+                                "b" => aio::block_on(ws[i].async_write2(g(0), g(1))),
+                                "d" => aio::block_on(ws[i].async_write3(g(0), g(1), g(2))),
+                                "e" => aio::block_on(ws[i].async_write_all(g(0))).map(|_| g(0).len()),
+                                _ => {
+                                    let count = num(f[2]) as usize;
+                                    let data = unhex(f.get(4).copied().unwrap_or(""));
+                                    let mut c = vec![0xa5u8, 0xa5];
+                                    c.extend_from_slice(&data);
+                                    let af = match f[3] {
+                                        "f" => aio::afile(Some(memfd(&c)), vec![], 0, false),
+                                        k => aio::afile(None, c, usize::MAX, k == "e"),
+                                    };
+                                    aio::block_on(ws[i].async_write_from_at(&af, count, 2))
+                                }
+                            };
+                            match r {
+                                Ok(n) => ok(n, &[]),
+                                Err(e) => er(&io_err(&e)),
+                            }
+                        }
+                        #[cfg(feature = "async-io")]
+                        "h" => {
+                            let j: i64 = f[2].parse().unwrap();
+                            let r = if j < 0 || j as usize == i {
+                                aio::block_on(ws[i].async_commit(None))
+                            } else {
+                                let o: *const Writer<'_, ()> = &ws[j as usize];
+                                aio::block_on(ws[i].async_commit(Some(unsafe { &*o })))
                             };
                             match r {
                                 Ok(n) => ok(n, &[]),
